@@ -1,1 +1,46 @@
-fn main(){}
+//! c19nr — dump tool for check C19, linked against serde-saphyr built WITHOUT the
+//! `robotics` feature (see Cargo.toml). Usage: `c19nr <corpus.json>` where the file
+//! is a JSON array of YAML documents. Output (stdout), one line each:
+//!
+//!   PROBE <outcome of f64 "2*pi" with angle_conversions = true>
+//!   <index>\toff\t<f32>\t<f64>\t<any>
+//!   <index>\ton\t<f32>\t<f64>\t<any>          (option on, feature absent)
+//!   END <number of documents>
+
+mod dump;
+
+use std::io::Write;
+
+fn main() {
+    std::panic::set_hook(Box::new(|_| {}));
+    let path = match std::env::args().nth(1) {
+        Some(p) => p,
+        None => {
+            eprintln!("usage: c19nr <corpus.json>");
+            std::process::exit(2);
+        }
+    };
+    let txt = match std::fs::read_to_string(&path) {
+        Ok(t) => t,
+        Err(e) => {
+            eprintln!("c19nr: cannot read {path}: {e}");
+            std::process::exit(2);
+        }
+    };
+    let docs: Vec<String> = match serde_json::from_str(&txt) {
+        Ok(d) => d,
+        Err(e) => {
+            eprintln!("c19nr: bad corpus file: {e}");
+            std::process::exit(2);
+        }
+    };
+    let out = std::io::stdout();
+    let mut out = std::io::BufWriter::new(out.lock());
+    let _ = writeln!(out, "PROBE {}", dump::dump_f64(dump::FEATURE_PROBE, true));
+    for (i, d) in docs.iter().enumerate() {
+        let _ = writeln!(out, "{i}\toff\t{}", dump::dump_doc(d, false));
+        let _ = writeln!(out, "{i}\ton\t{}", dump::dump_doc(d, true));
+    }
+    let _ = writeln!(out, "END {}", docs.len());
+    let _ = out.flush();
+}
